@@ -294,4 +294,24 @@ theorem ioResolve_ok (ips : List String) (ep ep1 : Ep) (h : ioResolve ips ep = .
         exact ⟨rfl, by simpa using hc⟩
       · simp at h
 
+/-! ### views: what the registry and forwarder invariants see of an object -/
+
+def UdpSock.view (u : UdpSock) : Bool × Ep × Option Nat := (u.isOpen, u.bound, u.fwd)
+def TcpSock.view (t : TcpSock) : Bool × Ep × Option Nat := (t.isOpen, t.bound, t.fwd)
+def NetSt.uv (n : NetSt) (x : String) : Option (Bool × Ep × Option Nat) := (n.udp? x).map UdpSock.view
+def NetSt.tv (n : NetSt) (x : String) : Option (Bool × Ep × Option Nat) := (n.tcp? x).map TcpSock.view
+def NetSt.ub (n : NetSt) (x : String) : Option (Bool × Ep) := (n.udp? x).map (fun u => (u.isOpen, u.bound))
+def NetSt.tb (n : NetSt) (x : String) : Option (Bool × Ep) := (n.tcp? x).map (fun t => (t.isOpen, t.bound))
+def NetSt.uf (n : NetSt) (x : String) : Option (Bool × Option Nat) := (n.udp? x).map (fun u => (u.isOpen, u.fwd))
+def NetSt.tf (n : NetSt) (x : String) : Option (Bool × Option Nat) := (n.tcp? x).map (fun t => (t.isOpen, t.fwd))
+
+theorem NetSt.ub_eq (n : NetSt) (x : String) : n.ub x = (n.uv x).map (fun v => (v.1, v.2.1)) := by
+  simp [NetSt.ub, NetSt.uv, UdpSock.view, Function.comp_def]
+theorem NetSt.uf_eq (n : NetSt) (x : String) : n.uf x = (n.uv x).map (fun v => (v.1, v.2.2)) := by
+  simp [NetSt.uf, NetSt.uv, UdpSock.view, Function.comp_def]
+theorem NetSt.tb_eq (n : NetSt) (x : String) : n.tb x = (n.tv x).map (fun v => (v.1, v.2.1)) := by
+  simp [NetSt.tb, NetSt.tv, TcpSock.view, Function.comp_def]
+theorem NetSt.tf_eq (n : NetSt) (x : String) : n.tf x = (n.tv x).map (fun v => (v.1, v.2.2)) := by
+  simp [NetSt.tf, NetSt.tv, TcpSock.view, Function.comp_def]
+
 end SimVerif
